@@ -458,6 +458,7 @@ const (
 	wWide
 	wBoundary
 	wTwoClusters
+	wFarCluster
 	numWidthModes
 )
 
@@ -489,6 +490,17 @@ func (s *fontSpec) expandWidths() []float64 {
 			ws[i] = base + d
 			if math.Abs(ws[i]) >= 1000 && ws[i] != math.Trunc(ws[i]*16)/16 {
 				ws[i] = math.Trunc(ws[i])
+			}
+		case wFarCluster:
+			// widths far beyond the 16.16 range of a charstring operand, close
+			// to each other: what a charstring stores is the difference to the
+			// nominal width, a DICT number
+			centre := []float64{40000, -40000, 100000, 32768, -32769, 1000000, -2000000}[int(s.WidthSeed%7)]
+			ws[i] = centre + float64(r.intn(2001)) - 1000
+			if r.intn(4) == 0 && math.Abs(centre) <= 40000 {
+				// (the harness's own writers spell a fractional default or
+				// nominal width with nine significant digits)
+				ws[i] += float64(r.intn(16)) / 16
 			}
 		case wTwoClusters:
 			if r.intn(2) == 0 {
